@@ -63,7 +63,9 @@ def next_char(it, bs, i):
         return ord(bytes(bs[i:i + w]).decode('utf8')), w
     dom = it.ctx.syms.get(b[1])
     if dom is None or max(dom) >= 0x80:
-        raise Unsupported("symbolic byte %s not constrained to ASCII inside a str" % b[1])
+        # the domain allows non-ASCII values: the path condition must already exclude them (e.g. after UTF-8 validation)
+        if not it.ctx.branch(t_in(b, frozenset(range(128))), 'ascii'):
+            raise Unsupported("symbolic byte %s may be non-ASCII inside a str" % b[1])
     return CharV(b), 1
 
 
@@ -443,7 +445,16 @@ def m_from_utf8_lossy(it, argv, text):
         if is_sym(b):
             dom = it.ctx.syms.get(b[1])
             if dom is None or max(dom) >= 0x80:
-                raise Unsupported("from_utf8_lossy on unconstrained symbolic bytes")
+                if not it.ctx.branch(t_in(b, frozenset(range(128))), 'ascii'):
+                    # a non-ASCII symbolic byte: lossy conversion replaces an invalid sequence by U+FFFD (3 bytes);
+                    # valid multi-byte sequences are covered by concrete layouts
+                    out = []
+                    for x in bs:
+                        if x is b:
+                            out.extend([0xEF, 0xBF, 0xBD])
+                        else:
+                            out.append(x)
+                    return m_from_utf8_lossy(it, [VecV(tuple(out))], text)
     # concrete non-ASCII parts must be valid UTF-8 between symbolic ASCII bytes
     return EnumV('Cow', 'Borrowed', 0, (StrV(tuple(bs)),))
 
